@@ -235,7 +235,8 @@ func (m *CLIManager) Uninstall(ctx context.Context, name string) error {
 // plugin root. Plugin names may come from untrusted input, for example from
 // the verification plugin attribute of a signature.
 func validatePluginName(name string) error {
-	if name == "" || name == "." || name == ".." || name != filepath.Base(name) || strings.ContainsRune(name, 0) {
+	if name == "" || name == "." || name == ".." || name != filepath.Base(name) ||
+		strings.ContainsRune(name, '/') || strings.ContainsRune(name, filepath.Separator) || strings.ContainsRune(name, 0) {
 		return fmt.Errorf("invalid plugin name %q: plugin name must be a single path component", name)
 	}
 	return nil
